@@ -41,7 +41,7 @@ Value& SINHExpression::value(Context & ctx) const
     break;
   case Type::INTEGER:
     if (val.isNull())
-      return val;
+      break;
     v = Value(Numeric(std::sinh(*val.integer())));
     break;
   case Type::NUMERIC:
